@@ -382,6 +382,40 @@ def constructor_matrix():
                        "matrix": [list(inits), inv_level, root]}
 
 
+def diamond_invariant_matrix():
+    """Enumerated diamonds K3(K1, K2), K1(K0), K2(K0): which of root / left arm / right arm / bottom carry an invariant of
+    their own (all 16 subsets, check_on CALL / SETATTR / ALL), members on the root and on both arms; every invariant in
+    turn turns falsy during a method call, a call of an arm's member, an assignment and a construction: the invariants of
+    EVERY class on every path are evaluated (the root's once per path), whichever base comes second."""
+    import itertools
+
+    for owners in itertools.product((False, True), repeat=4):
+        if not any(owners):
+            continue
+        for on in ("CALL", "SETATTR", "ALL"):
+            invs, cid = [], 0
+            for has in owners:
+                cid += 1
+                invs.append([{"cid": cid, "on": on, "lam": False, "selfarg": True, "err": {"form": "default"}}] if has else [])
+            classes = [{"name": "K0", "bases": [], "root": "DBC", "shape": "plain", "invs": invs[0], "members": [_m("m", "method")]},
+                       {"name": "K1", "bases": [0], "root": "DBC", "shape": "plain", "invs": invs[1], "members": [_m("left", "method")]},
+                       {"name": "K2", "bases": [0], "root": "DBC", "shape": "plain", "invs": invs[2], "members": [_m("right", "method")]},
+                       {"name": "K3", "bases": [1, 2], "root": "DBC", "shape": "plain", "invs": invs[3], "members": [_m("own", "method")]}]
+            cids = [i["cid"] for g in invs for i in g]
+            ops = [{"op": "new", "cls": 3, "k": 0, "args": {}, "truth": {c: ["T"] for c in cids}}]
+            for opx in ({"op": "call", "k": 0, "m": "m", "args": {"x": "a:x"}}, {"op": "call", "k": 0, "m": "left", "args": {"x": "a:x"}},
+                        {"op": "call", "k": 0, "m": "right", "args": {"x": "a:x"}}, {"op": "call", "k": 0, "m": "own", "args": {"x": "a:x"}},
+                        {"op": "setattr", "k": 0}):
+                ops.append(dict(opx, truth={c: ["T"] for c in cids}))
+                for bad in cids:
+                    ops.append(dict(opx, truth={c: (["T", "F"] if c == bad else ["T"]) for c in cids}))
+                    ops.append({"op": "new", "cls": 3, "k": 0, "args": {}, "truth": {c: ["T"] for c in cids}})
+            for bad in cids:
+                ops.append({"op": "new", "cls": 3, "k": 1, "args": {}, "truth": {c: (["F"] if c == bad else ["T"]) for c in cids}})
+            yield {"program": {"funcs": [], "classes": classes}, "ops": ops, "codes": {}, "masks": [0], "fixed_truth": {},
+                   "d19_shape": False, "matrix": ["diamond-invariants", list(owners), on]}
+
+
 def invariant_order_matrix():
     """Enumerated: the invariants of a hierarchy in every order of check_on (one or two invariants on the base, possibly
     split over two bases), and a sub-class WITHOUT invariants of its own that defines NEW members (method, property,
@@ -829,6 +863,11 @@ def directed(ctx, only=None):
             D.run_one(ctx, case, judge, nontrivial=lambda *a: True)
             n += 1
         ctx.count("invariant_order_matrix_programs", n)
+        n = 0
+        for case in diamond_invariant_matrix():
+            D.run_one(ctx, case, judge, nontrivial=lambda *a: True)
+            n += 1
+        ctx.count("diamond_invariant_matrix_programs", n)
 
 
 def replay(ctx, case):
